@@ -69,6 +69,13 @@ SCENARIOS = {
     "ipc_pass": "Li gs0:1 pi0:1 po0:g0 pi1:1 po1:g1 ti2:4 w20:2 rs1:1 R ti3:0 A1:3 X0 X1 X2 X3 R Lc",
     "ipc_unclaimed": "Li gs0:1 pi0:1 po0:g0 pi1:1 po1:g1 ti2:4 ui4:4 w20:2 rs1:1 R X0 X1 X2 X4 R Lc",
     "sqpoll": "Li Lq Lz R Lc",
+    # asynchronous uv_fs_open on an SQPOLL loop (UV_USE_IO_URING=1): the kernel opens the file from an SQE
+    # (uv__iou_fs_open sets O_CLOEXEC in the SQE, linux.c:974); FD_CLOEXEC is read in the callback, the
+    # table scan sees the descriptor appear, a spawned helper reports what it inherited
+    "ring_open": "Li Lq Lz R ga0:c R ga1:p R ga2:d R ga3:P R sp4:i,i,i:ok R X4 R gc0 gc1 gc2 gc3 Lc",
+    "ring_open_first": "Li Lq ga0:c R sp1:h0,h1,h2:ok R X1 R gu0 Lc",
+    # the same requests on a loop without the ring: thread-pool route through open()
+    "pool_open_async": "Li ga0:c R ga1:d R ga2:P R sp3:i,i,i:ok R X3 R gc0 gc1 gc2 Lc",
     # regression case of /repo c6159bf: uv_close of a uv_udp_t wrapping descriptor 0 must not close it
     "udp_stdio": "D0 Li ui0:0 uo0:f0 X0 R Lc",
     # child-side descriptor shuffling of uv__process_child_init: swap, 2>&1, slots fed from lower
@@ -198,6 +205,8 @@ def model_input(parsed, fixed=1):
     for events, op, rc in ops:
         for kind, cx, fds, cls in attempts(events):
             orc.append("a" if fds is not None else cls)
+        if op == "DIED":
+            continue
         if op == "-" or rc == "skip":
             # operations without a model counterpart must not touch descriptors;
             # temp-file readers (uv_cpu_info) are sequences of open/close
@@ -205,6 +214,9 @@ def model_input(parsed, fixed=1):
             for _ in range(n):
                 mops.append("sl"); pseudo.append(True)
             continue
+        for t in events:
+            if re.match(r"^Z[01]$", t):      # the first uv_fs_* request of the loop: lazy SQPOLL ring
+                mops.append("Lz:" + t[1]); pseudo.append(True)
         if op == "ru":
             i = 0
             while i < len(events):
@@ -275,7 +287,7 @@ def canon_events(events, rn):
             kind = "x" if m.group(1) == "xforeign" else m.group(1)
             closes.append(kind + rn.close(int(m.group(2))))
             continue
-        if t[0] in "KMCQ" or re.match(r"^[ka]\d+$", t):
+        if t[0] in "KMCQZ" or re.match(r"^[ka]\d+$", t):
             continue
         flush()
         if t[0] == "+":
@@ -357,6 +369,12 @@ def monitor_line(line):
             if fds is not None and cx != 1:
                 return "descriptor %s created by %s without close-on-exec (in %s)" % (fds, kind, op)
         for t in events:
+            if t.startswith("!died"):
+                sig, _, step = t[5:].partition(":")
+                what = {"6": "abort()", "11": "segmentation fault", "14": "no progress for 60 s"}.get(sig, "signal " + sig)
+                done = [o for _, o, _ in ops[:idx] if o not in ("-", "DIED")]
+                return "libuv terminated the process (%s) inside script step '%s', after %s" % \
+                    (what, step, " ".join(done[-6:]) or "nothing")
             if t.startswith("!stolen"):
                 return "uv_spawn closed descriptor %s, which was only passed to it with UV_INHERIT_FD/" \
                        "UV_INHERIT_STREAM (in %s)" % (t[7:], op)
@@ -499,7 +517,7 @@ def main():
         seen_lock = False
         for events, op, rc in p[1]:
             for kind, cx, fds, cls in attempts(events):
-                if kind in ("late", "cmsg"):
+                if kind in ("late", "cmsg", "ringopen"):
                     continue
                 k += 1
                 if op.startswith("Li") and kind == "pipe2" and not seen_lock:
@@ -538,6 +556,9 @@ def main():
         return monitor_line(raw[case])
     vf.diff_cases(chk, "descriptor ledger: libuv (wrapped creations/closes, table scans) = Model/FdLedger.v",
                   cases, icanon, mcanon, monitor)
+    ring = [l for (n, _), l in zip(named, base_out) if n == "ring_open"]
+    chk.cov["sqpoll_ring_available"] = bool(ring) and "+ringopen" in ring[0]
+    chk.cov["ring_opens_observed"] = sum(l.count("+ringopen") for l in impl)
     chk.cov["scenarios"] = len(named)
     chk.cov["fault_cases"] = len(cases) - len(base)
     chk.cov["creation_kinds_exercised"] = kinds_hit
